@@ -7,12 +7,12 @@ CONSTANTS
   FInts = {1}
   FStrs <- MCFStrsSmall
   FBoth <- MCFBothSmall
-  Res <- MCResSmall
+  Res <- MCResTwo
   ReSet <- MCReSet
   Kinds = {"plain", "raw"}
   ValKinds = {"M", "S", "B", "E"}
-  MaxOps = 3
-  MaxVals = 3
+  MaxOps = 2
+  MaxVals = 2
   Break = "notin_or"
   IntIdx <- MCIntIdx
   StrIdx <- MCStrIdx
